@@ -35,6 +35,9 @@ type FuncFacts struct {
 	in      []map[string]*Atom                 // must-hold facts at block entry (nil = unreachable/top)
 	done    bool
 	ids     map[ssa.Value]int
+	accBusy     map[*ssa.Phi]bool
+	accMemo     map[*ssa.Phi]*Poly
+	accResult   map[*ssa.Phi]*Poly
 	loadReps    map[*ssa.UnOp]*ssa.UnOp
 	loadsByAddr map[string][]*ssa.UnOp
 	// LeafKey lets a rule name specific (unforwarded) values in linear forms, e.g. the load
@@ -54,6 +57,22 @@ func (P *Program) Facts(fn *ssa.Function) *FuncFacts {
 	}
 	ff := &FuncFacts{P: P, Fn: fn, fwd: map[*ssa.UnOp]Resolved{}, agg: map[*ssa.UnOp]map[string]ssa.Value{}, aggBase: map[*ssa.UnOp]Resolved{}, ids: map[ssa.Value]int{}}
 	P.fnFacts[fn] = ff
+	// deterministic value numbers: parameters, free variables, then every value-producing
+	// instruction in block order (keys such as load@N / phi@N must not depend on which
+	// analysis happened to ask first)
+	for _, p := range fn.Params {
+		ff.ids[p] = len(ff.ids) + 1
+	}
+	for _, fv := range fn.FreeVars {
+		ff.ids[fv] = len(ff.ids) + 1
+	}
+	for _, b := range fn.Blocks {
+		for _, in := range b.Instrs {
+			if v, ok := in.(ssa.Value); ok {
+				ff.ids[v] = len(ff.ids) + 1
+			}
+		}
+	}
 	ff.forward()
 	ff.solve()
 	return ff
@@ -1286,4 +1305,43 @@ func (ff *FuncFacts) OutFacts(b *ssa.BasicBlock) []*Atom {
 // BlockReachable reports whether b is reachable in the facts fixpoint.
 func (ff *FuncFacts) BlockReachable(b *ssa.BasicBlock) bool {
 	return b != nil && ff.in[b.Index] != nil
+}
+
+// ValueCase is one way a value can come about: the value delivered and the atoms that hold
+// when it is delivered (φ edges are unfolded; a non-φ value is its own single case).
+type ValueCase struct {
+	Val   ssa.Value
+	Facts []*Atom
+}
+
+// CasesOf unfolds v (after forwarding) through φ nodes, at most depth levels; at is the
+// instruction whose point facts apply to a non-φ value.
+func (ff *FuncFacts) CasesOf(v ssa.Value, at ssa.Instruction, depth int) []ValueCase {
+	v = ff.Fwd(v)
+	ph, ok := v.(*ssa.Phi)
+	if !ok || depth <= 0 {
+		var fs []*Atom
+		if at != nil {
+			fs = ff.At(at)
+		}
+		return []ValueCase{{v, fs}}
+	}
+	var out []ValueCase
+	for i, e := range ph.Edges {
+		pred := ph.Block().Preds[i]
+		if !ff.BlockReachable(pred) {
+			continue
+		}
+		var fs []*Atom
+		fs = append(fs, ff.OutFacts(pred)...)
+		fs = append(fs, ff.EdgeFacts(pred, ph.Block())...)
+		if inner, isPhi := ff.Fwd(e).(*ssa.Phi); isPhi && inner != ph {
+			for _, c := range ff.CasesOf(inner, nil, depth-1) {
+				out = append(out, ValueCase{c.Val, append(append([]*Atom{}, fs...), c.Facts...)})
+			}
+			continue
+		}
+		out = append(out, ValueCase{ff.Fwd(e), fs})
+	}
+	return out
 }
